@@ -113,7 +113,7 @@ func New(sc Scenario, rng *rand.Rand, out func(op, obs string)) (*Sim, error) {
 		if i < len(sc.Addrs) && sc.Addrs[i] != "" {
 			addr = sc.Addrs[i]
 		}
-		p := &Peer{Idx: i, Addr: addr, B: b, w: s.W}
+		p := &Peer{Idx: i, Addr: addr, B: b, w: s.W, Release: make(chan struct{})}
 		switch b.Kind {
 		case "lighterFork":
 			// a valid branch leaving the honest chain b.H blocks below its tip, b.N blocks long
